@@ -8,6 +8,7 @@ BOUNDS = {"histories": "keys a and b sharing one content, c with distinct conten
                        "(several records in the bucket) and explicit symbolic timestamps",
           "shards": "the two contents in different shard directories, and (remove_hash / remove_fully) in the same first-level shard directory",
           "frame": "the difference between the filesystem before and after the operation is compared path by path",
+          "sequences": "two or three removals / re-writes in a row on keys sharing one content (family seq)",
           "outside": "longer histories; concurrent use during clear/remove_fully (excluded by the property)"}
 
 
@@ -154,6 +155,54 @@ def removal(ctx, op, target, rewrite, explicit_time, api, shard=False):
             expect_bytes(ctx, scn.read("a"), scn.whole(D), tag + ":reuse-read", "read after clear and re-write")
 
 
+def removal_seq(ctx, seq, api):
+    """Two removals in a row (keys a and b share one content D; c holds E): a removal that reports success has
+    removed what it names, whatever was removed before; nothing else is affected."""
+    scn = ctx.new_scn(api=api)
+    D, E = scn.blob("D"), scn.blob("E")
+    scn.distinct(D, E)
+    tag = "C09:%s:seq:%s" % (api, "+".join(seq))
+    sris = {}
+    for k, blob in (("a", D), ("b", D), ("c", E)):
+        r = scn.write(k, scn.whole(blob))
+        if r.kind != "ok":
+            return
+        sris[k] = r.value
+    live = {"a", "b", "c"}
+    for op in seq:
+        kind, k = op.split(":")
+        if kind == "remove":
+            out = scn.remove(k)
+        elif kind == "remove_fully":
+            out = scn.remove_fully(k)
+        elif kind == "remove_hash":
+            out = scn.remove_hash(sris[k])
+        elif kind == "write":
+            out = scn.write(k, scn.whole(D if k in ("a", "b") else E))
+        if not expect_no_panic(ctx, out, tag + ":" + op, op):
+            return
+        if kind == "write" and out.kind == "ok":
+            live.add(k)
+        if kind in ("remove", "remove_fully"):
+            if out.kind == "ok":
+                live.discard(k)
+                lk = scn.metadata(k)
+                if expect_ok(ctx, lk, tag + ":lookup", "lookup after " + op):
+                    ctx.expect(lk.value.vname == "None", tag + ":" + kind + ":still-found", "%s reported success but key %s is still found" % (op, k),
+                               native={"kind": "value_is", "step": last(scn), "value": {"meta": None}})
+    # keys that no successful removal named are still there
+    for k in sorted(live):
+        lk = scn.metadata(k)
+        if expect_ok(ctx, lk, tag + ":lookup-live", "lookup of " + k):
+            ctx.expect(lk.value.vname == "Some", tag + ":lost-key", "after %s key %s is no longer found although no successful removal named it" % ("+".join(seq), k),
+                       native={"kind": "not", "of": {"kind": "value_is", "step": last(scn), "value": {"meta": None}}})
+    expect_bytes(ctx, scn.read("c"), scn.whole(E), tag + ":c-data", "reading the unrelated entry c")
+
+
+SEQS = [("remove_fully:a", "remove_fully:b"), ("remove_hash:a", "remove_fully:a"), ("remove_hash:a", "remove_fully:b"),
+        ("remove:a", "write:a", "remove:a"), ("remove:a", "remove:a"), ("remove:a", "write:a", "remove_fully:a"), ("remove_fully:a", "write:a", "remove:a")]
+
+
 def tasks(tier, flavours):
     out = []
     for fl in flavours:
@@ -168,6 +217,9 @@ def tasks(tier, flavours):
                         if et and (tier == "quick" and (fl != "sync" and op not in ("remove", "remove_fully"))):
                             continue
                         out.append(dict(module="C09", family="removal", flavour=fl, params=dict(op=op, target=t, rewrite=rewrite, explicit_time=et, api=api)))
+            if op == "remove":
+                for seq in SEQS:
+                    out.append(dict(module="C09", family="removal_seq", flavour=fl, params=dict(seq=list(seq), api=api)))
             if op in ("remove_hash", "remove_fully"):
                 for t in ("a", "c"):
                     out.append(dict(module="C09", family="removal", flavour=fl, params=dict(op=op, target=t, rewrite=False, explicit_time=False, api=api, shard=True)))
